@@ -21,7 +21,7 @@ func init() {
 			Rule: "stateless exploration of ALL interleavings (no preemption bound; with two commands: up to 2 (quick) / 4 (thorough) preemptions) of the real runner code (runner.go / command_storer.go rewritten so that every go statement, channel send, select and time.Sleep is a scheduling point of a cooperative scheduler; virtual clock) for scripts L0 <<c1 7 true>> <<set $k += 1>> L1 <<c2>> <<set $k += 1>> L2 with one or two commands; " +
 				"each command gets a handler shape from {raw AddCommand with a channel already holding nil / an error; raw with the channel completed later by a completer thread (send nil, send error, close; buffered, and unbuffered with the sender parked in its send until a poll takes the value); converted func(..), func(..) error (nil / error), func(..) <-chan error, func(..) chan error; built-in wait 0 / 0.5 / 1 / 1.5 / 0.0009 / 1.0005; unregistered name}, asynchronous handlers ungated or gated (a gate that only the host opens after p in 0..2 polls); " +
 				"the host thread performs up to 8 Next calls and, for wait, advances the virtual clock by steps from {n/2, n/2-1ns, 1ns}; oracle per execution: no Next ever blocks (host stuck inside the API with no enabled thread), no panic; the results follow L0 W* [E]? L1(k=1) W* [E]? L2(k=2) end with W = ErrWaitingForCommandCompletion exactly while completion cannot have been reported, E exactly once iff the command reports an error, " +
-				"no W once completion has been reported and every other thread is quiet; every executed command statement invokes its handler exactly once with (7, true); wait n never completes at a virtual time below n seconds after it started; R: a pending (gated) command abandoned by RestoreAt and the same command statement executed again - the second execution must wait for its own handler; plus a free-running -race pass over the same shapes; " +
+				"no W once completion has been reported and every other thread is quiet; every executed command statement invokes its handler exactly once with (7, true); wait n never completes at a virtual time below n seconds after it started; R: a pending (gated) command abandoned by RestoreAt and the same command statement executed again - the second execution must wait for its own handler; RF: one command of every shape and, before one of the first three polls, a RestoreAt of a snapshot naming an unknown node, which is refused and changes nothing (the pending command is still waited for, its error still surfaced once); plus a free-running -race pass over the same shapes; " +
 				"a case is one complete schedule; non-trivial = schedule with at least one poll answered by ErrWaitingForCommandCompletion",
 			StatesMean:  "distinct complete schedules (executions) of the rewritten code; transitions = scheduling points granted",
 			Assumptions: []string{"sequentially consistent executions at the granularity of the hooked operations; unsynchronised accesses between hooks are the subject of the separate -race pass", "unbuffered channels are modelled as a rendezvous between a parked sender and the polling select", "the rewriting rules are syntactic and local (cmd/vrewrite); the rewritten package is the code that runs"},
@@ -192,6 +192,9 @@ func (cmd *c10Cmd) install(dr *ysgo.DialogueRunner, name string) {
 
 type c10Config struct {
 	cmds []*c10Cmd
+	// refuseBefore > 0: before the call of Next with this index the host tries to restore a snapshot that names an unknown
+	// node; the restore is refused and changes nothing (a command that is pending stays pending)
+	refuseBefore int
 }
 
 func (cfg *c10Config) describe() string {
@@ -202,6 +205,9 @@ func (cfg *c10Config) describe() string {
 			d += fmt.Sprintf("(gated, opened after %d waiting polls)", c.openAt)
 		}
 		s = append(s, d)
+	}
+	if cfg.refuseBefore > 0 {
+		s = append(s, fmt.Sprintf("refused RestoreAt before call %d", cfg.refuseBefore+1))
 	}
 	return strings.Join(s, " ; ")
 }
@@ -251,6 +257,16 @@ func c10Body(cfg *c10Config, maxCalls int, results *[]string) (clause, detail st
 		// time passes between two polls: the other threads get a chance to run even if Next itself
 		// contains no scheduling point
 		vsched.Point("between-polls")
+		if cfg.refuseBefore > 0 && call == cfg.refuseBefore {
+			vsched.EnterAPI()
+			err := dr.RestoreAt(&ysgo.Snapshot{CurrentNode: "no such node", Variables: map[string]variable.Value{}, VisitedNodes: map[string]int{"A": 3}})
+			vsched.LeaveAPI()
+			*results = append(*results, "refused-restore")
+			if err == nil {
+				return "refused-restore-accepted", "RestoreAt of a snapshot that names an unknown node reported success"
+			}
+			vsched.Point("between-polls")
+		}
 		quiet := vsched.OthersQuiet() && !vsched.Sleeping()
 		clock := vsched.Now()
 		vsched.EnterAPI()
@@ -374,26 +390,10 @@ func runC10(ctx *report.Ctx) {
 		second = []int{-1, 5, 3}
 	}
 	selfTests := 0
-	part(ctx, "S", -1, func(c *explore.Chooser) {
-		mk := func(si int, label string) *c10Cmd {
-			sh := c10Shapes[si]
-			cmd := &c10Cmd{shape: sh, gate: make(chan struct{}, 1)}
-			if sh.gatable && c.Choose(2, label+"-gated") == 1 {
-				cmd.gated = true
-				cmd.openAt = c.Choose(3, label+"-open-after")
-			}
-			return cmd
-		}
-		cfg := &c10Config{}
-		cfg.cmds = append(cfg.cmds, mk(c.Choose(len(c10Shapes), "shape1"), "c1"))
-		if s2 := second[c.Choose(len(second), "shape2")]; s2 >= 0 {
-			cfg.cmds = append(cfg.cmds, mk(s2, "c2"))
-		}
-		if !c.Mine() {
-			return
-		}
+	var runCfg func(c *explore.Chooser, partName string, cfg *c10Config)
+	runCfg = func(c *explore.Chooser, partName string, cfg *c10Config) {
 		cfgChoices := len(c.Choices())
-		ctx.Current("S: " + cfg.describe())
+		ctx.Current(partName + ": " + cfg.describe())
 		var results []string
 		var clause, detail string
 		pb := -1
@@ -475,7 +475,7 @@ func runC10(ctx *report.Ctx) {
 			}
 			ctx.Violation(report.Violation{Clause: clause, Witness: cfg.describe() + " :: results " + strings.Join(results, " "),
 				Detail:  detail + " -- schedule (thread:operation) " + strings.Join(sched, " "),
-				Choices: c.Choices(), Part: "S", Extra: map[string]any{"scripts": []string{cfg.script()}, "handlers": cfg.describe(), "results": results, "schedule": sched}})
+				Choices: c.Choices(), Part: partName, Extra: map[string]any{"scripts": []string{cfg.script()}, "handlers": cfg.describe(), "results": results, "schedule": sched}})
 		} else if ctx.WantSample() && ws >= 2 && len(cfg.cmds) == 2 {
 			var sched []string
 			for _, e := range ex.Log {
@@ -483,6 +483,41 @@ func runC10(ctx *report.Ctx) {
 			}
 			ctx.Sample(map[string]any{"handlers": cfg.describe(), "results": results, "schedule": strings.Join(sched, " ")})
 		}
+	}
+	part(ctx, "S", -1, func(c *explore.Chooser) {
+		mk := func(si int, label string) *c10Cmd {
+			sh := c10Shapes[si]
+			cmd := &c10Cmd{shape: sh, gate: make(chan struct{}, 1)}
+			if sh.gatable && c.Choose(2, label+"-gated") == 1 {
+				cmd.gated = true
+				cmd.openAt = c.Choose(3, label+"-open-after")
+			}
+			return cmd
+		}
+		cfg := &c10Config{}
+		cfg.cmds = append(cfg.cmds, mk(c.Choose(len(c10Shapes), "shape1"), "c1"))
+		if s2 := second[c.Choose(len(second), "shape2")]; s2 >= 0 {
+			cfg.cmds = append(cfg.cmds, mk(s2, "c2"))
+		}
+		if !c.Mine() {
+			return
+		}
+		runCfg(c, "S", cfg)
+	})
+	// RF: one command of every shape; before one of the first polls the host tries to restore a snapshot that names an
+	// unknown node: the restore is refused and the pending command is still waited for, its error still surfaced once
+	part(ctx, "RF", -1, func(c *explore.Chooser) {
+		sh := c10Shapes[c.Choose(len(c10Shapes), "shape1")]
+		cmd := &c10Cmd{shape: sh, gate: make(chan struct{}, 1)}
+		if sh.gatable && c.Choose(2, "c1-gated") == 1 {
+			cmd.gated = true
+			cmd.openAt = c.Choose(3, "c1-open-after")
+		}
+		cfg := &c10Config{cmds: []*c10Cmd{cmd}, refuseBefore: 1 + c.Choose(3, "refused-restore-before")}
+		if !c.Mine() {
+			return
+		}
+		runCfg(c, "RF", cfg)
 	})
 	// R: a pending command abandoned by RestoreAt, then the same command statement executed again: the second
 	// execution must wait for its own handler (no result of the abandoned execution may be taken for it)
